@@ -104,7 +104,10 @@ func (g *gen) snippet() string {
 			fmt.Sprintf("func (t %s) String() string { return fmt.Sprint(t.deg) + \"C\" }", t),
 			fmt.Sprintf("func (t *%s) Error() string { return \"too hot: \" + t.String() }", t))
 		d := g.Int(-5, 40, "deg")
-		return fmt.Sprintf("{\n\tvar s fmt.Stringer = %s{%d}\n\tvar e error = &%s{%d}\n\trec.E(%d, fmt.Sprint(s), fmt.Sprintf(\"%%v|%%s\", e, s), e.Error())\n}\n", t, d, t, d+1, ev)
+		// compiled code sees the methods only when it receives the value through the
+		// compiled interface type (rec.Str takes a fmt.Stringer, rec.Err an error); converted to
+		// interface{} the emulated struct is extracted (documented limitation)
+		return fmt.Sprintf("{\n\tvar s fmt.Stringer = %s{%d}\n\tvar e error = &%s{%d}\n\trec.E(%d, rec.Str(s), rec.Err(e), s.String(), e.Error())\n}\n", t, d, t, d+1, ev)
 	case 8: // interpreted io.Reader / io.Writer through io.Copy
 		g.imp("io")
 		g.calls += 6
